@@ -99,7 +99,7 @@ def dispatch(ctx: Ctx) -> None:
     sp = fi.param_names()[0]
     from .tables import function_decs, judge as tjudge, sums_of as tsums, terminal_text
     from ..decide import IGNORE
-    sums = tsums(ctx, fi)
+    sums = tsums(ctx, fi, bool_returns=True)
     SUF = f"{sp}.name.lower().rpartition('.')[2]"
     T1, T2, NS = f"isinstance({sp}, TextIOWrapper)", f"isinstance({sp}, TextIO)", f"type({sp}.name) is str"
     S1, S2 = f"{SUF} == 'ssc'", f"{SUF} == 'sm'"
@@ -120,14 +120,16 @@ def dispatch(ctx: Ctx) -> None:
     eqv = {f"{sp}.name.lower().endswith('.ssc')": (S1, True), f"{sp}.name.lower().endswith('.sm')": (S2, True),
            f"{sp}.name.lower().rsplit('.', 1)[-1] == 'ssc'": (S1, True), f"{sp}.name.lower().rsplit('.', 1)[-1] == 'sm'": (S2, True),
            f"isinstance({sp}.name, str)": (NS, True)}
+    IN2 = f"{SUF} in ('sm', 'ssc')"
     tjudge(ctx, "R-TABLE", fi, "suffix dispatch: a named text stream whose lower-cased name ends in .ssc is SSC, in .sm is SM (decided without reading it)", decs, [T1, T2, NS, S1, S2], spec, equiv=eqv,
+           dont_care=[IN2], feasible=lambda full: full.get(ckey(IN2)) is None or full[ckey(IN2)] == bool(full.get(ckey(S1)) or full.get(ckey(S2))),
            why="documented: .ssc -> SSC, .sm -> SM, compared case-insensitively on the text after the last '.'")
     # a path that answers True/False without reading the text must be one of the two suffix answers
     early = [d for d in decs if d.outcome != "from the text"]
-    ok_only = all(((d.assign.get(ckey(T1)) or d.assign.get(ckey(T2))) and d.assign.get(ckey(NS)) and (d.assign.get(ckey(S1)) or d.assign.get(ckey(S2)))) for d in early)
+    ok_only = all(((d.assign.get(ckey(T1)) or d.assign.get(ckey(T2))) and d.assign.get(ckey(NS)) and (d.assign.get(ckey(S1)) or d.assign.get(ckey(S2)) or d.assign.get(ckey(IN2)))) for d in early)
     ctx.expect("R-TABLE", fi, "nothing but the two suffixes decides the format without reading the text", ok_only and len(early) >= 2, f"{len(early)} early answers",
                "an answer is given before the text is parsed under conditions other than the .ssc / .sm suffix", node=fi.node)
-    _fallback(ctx, fi, decs)
+    _fallback(ctx, fi, function_decs(tsums(ctx, fi), out))
     # the peeked parameter is the FIRST one: next(parser) exactly once
     nx = [c for c in calls(fi) if isinstance(c.func, ast.Name) and c.func.id == "next"]
     ctx.expect("R-TABLE", fi, "the peek reads exactly the first parameter", len(nx) == 1, f"{len(nx)} next() call(s)", f"{len(nx)} next() calls", node=fi.node)
@@ -167,6 +169,8 @@ def _fallback(ctx: Ctx, fi: FunctionInfo, decs) -> None:
     for d in decs:
         if d.outcome != "from the text" or d.src.end == "raise":
             continue
+        if not any(e.kind == "bind" and e.value is not None and "next(" in ast.unparse(e.value) for e in d.src.effects):
+            continue  # answered before the first parameter was read: not the fallback (judged by the suffix table)
         k_, v = d.src.terminal()
         seen_fb += 1
         shown = ast.unparse(v) if v is not None else "None"
